@@ -96,7 +96,7 @@ func failWith(t *f1testing.T, mode string) {
 
 var failModes = []string{"fail", "failnow", "error", "fatal", "require", "panic-error", "panic-string", "panic-int", "panic-runtime"}
 
-func c08cli(n, f int, setupMode, teardownMode string, maxF, maxFR int) (row c08row) {
+func c08cli(n, f int, setupMode, teardownMode string, maxF, maxFR int, primed bool) (row c08row) {
 	setupFail, teardownFail := setupMode != "", teardownMode != ""
 	nerr := 0
 	if setupFail {
@@ -147,7 +147,15 @@ func c08cli(n, f int, setupMode, teardownMode string, maxF, maxFR int) (row c08r
 		args = append(args, "--max-failures-rate", fmt.Sprint(maxFR))
 	}
 	args = append(args, "scn")
-	err := f1.New().WithLogger(discardLogger()).Add("scn", scen).ExecuteWithArgs(args)
+	inst := f1.New().WithLogger(discardLogger()).Add("scn", scen)
+	if primed {
+		// not the first run on this F1 instance: an earlier one had every tolerance set (its verdict is of no interest);
+		// the verdict of THIS run follows from its own options only
+		row.Mode += "/second-run"
+		_ = inst.ExecuteWithArgs([]string{"run", "constant", "-r", "3/20ms", "--distribution", "none", "--max-duration", "50ms", "--concurrency", "4",
+			"--max-failures", "100000", "--max-failures-rate", "100", "--ignore-dropped", "scn"})
+	}
+	err := inst.ExecuteWithArgs(args)
 	row.Failed = err != nil
 	return row
 }
@@ -358,7 +366,8 @@ func init() {
 			}
 		}
 		for _, k := range cases {
-			w.write(c08cli(k.n, k.f, k.sf, k.tf, k.maxF, k.mxFR))
+			w.write(c08cli(k.n, k.f, k.sf, k.tf, k.maxF, k.mxFR, false))
+			w.write(c08cli(k.n, k.f, k.sf, k.tf, k.maxF, k.mxFR, true))
 		}
 		// tolerances given in a config file, one at a time, both, or neither: 10 iterations, 5 of them failing
 		for _, tol := range [][2]int{{-1, -1}, {5, -1}, {4, -1}, {-1, 50}, {-1, 49}, {5, 50}, {4, 60}, {6, 40}} {
